@@ -19,7 +19,9 @@ RULE = ('case = (calculator kind, crystal, cutoff index, supercell matrix); ever
         'transmapping, indices, reference is checked; nontrivial = transition endpoints whose recorded mapping uses '
         'a non-identity site permutation, plus endpoints correctly reported unmappable (escape states)')
 LEVEL_TEXT = 'bounded-exhaustive over the listed calculators and supercells; every dictionary entry is checked'
-ASSUMPTIONS = ['sup.G operations are correct site permutations (C27); the star sets / jump networks of the calculator '
+ASSUMPTIONS = ['Interstitial calculators are given the site list / jump network in a canonical (sorted) order, rotated by the '
+               'stated amounts, so that representatives do not depend on the hash seed; VacancyMediated ones as catalog.network returns them',
+               'sup.G operations are correct site permutations (C27); the star sets / jump networks of the calculator '
                'are correct (C24, C26); tags name their class (C15) -- the tag<->jump consistency is only re-checked to 5e-3',
                'tags print three decimals: positions are resolved to the unique crystal site within 2e-3',
                'Nthermo = 1 only; 3D crystals only']
@@ -33,9 +35,11 @@ MATS = {
     '553': [[5, 0, 0], [0, 5, 0], [0, 0, 3]],                   # the "large enough" HCP cell of the suite
     '5I': (5 * np.eye(3, dtype=int)).tolist(),
 }
-CALCS_Q = [('I', 'FCC_OT', 0), ('I', 'FCC_OT', 1), ('I', 'FCC_OT', 2), ('I', 'HCP_OT', 0), ('I', 'HCP_OT', 1),
+CALCS_Q = [('I', 'FCC_OT', 0), ('I', 'FCC_OT', 1), ('I', 'FCC_OT', 2), ('I', 'HCP_OT', 0), ('I', 'HCP_OT', 1), ('I', 'BCC_O', 0),
            ('V', 'FCC', 0), ('V', 'BCC', 0), ('V', 'HCP', 0), ('V', 'B2', 0)]
-CALCS_T = CALCS_Q + [('V', 'FCC', 1), ('V', 'BCC', 1), ('V', 'B2', 1), ('V', 'HCP15', 0), ('I', 'FCC_O', 1), ('I', 'BCC_O', 0)]
+CALCS_T = CALCS_Q + [('V', 'FCC', 1), ('V', 'BCC', 1), ('V', 'B2', 1), ('V', 'HCP15', 0), ('V', 'B2AB', 0), ('I', 'FCC_O', 1), ('I', 'BCC_T', 0)]
+ROTS = {'quick': (0, 1, 2), 'thorough': (0, 1, 2, 3)}   # representative choices for Interstitial calculators (VacancyMediated: as given)
+ROTCAP = {'quick': 40, 'thorough': 130}               # rot > 0 only on cells with at most this many sites
 MATS_Q = ['1I', '2I', '3I', '4I', 'd2hnf', 'cub2']
 MATS_T = MATS_Q + ['hex6', '553', '5I']
 SITECAP = {'quick': 220, 'thorough': 700}
@@ -51,28 +55,46 @@ def _configs(tier):
     out, skipped = [], []
     for kind, cname, icut in calcs:
         for m in mats:
-            (out if _nsites(cname, m) <= SITECAP[tier] else skipped).append((kind, cname, icut, m))
+            for rot in (ROTS[tier] if kind == 'I' else (0,)):
+                if rot and _nsites(cname, m) > ROTCAP[tier]: continue   # representative variation on the smaller cells only
+                (out if _nsites(cname, m) <= SITECAP[tier] else skipped).append((kind, cname, icut, m, rot))
     return out, skipped
 
 
 def BOUNDS(tier):
     conf, skipped = _configs(tier)
-    return {'calculators': sorted(set('{}:{}:cut{}'.format(k, c, i) for k, c, i, m in conf)),
+    return {'calculators': sorted(set('{}:{}:cut{}'.format(k, c, i) for k, c, i, m, r in conf)),
             'matrices': {m: MATS[m] for m in sorted(set(c[3] for c in conf))},
             'Nthermo': 1, 'site_cap': SITECAP[tier],
-            'skipped_by_site_cap': ['{}:{}:cut{}:{}'.format(*s) for s in skipped]}
+            'representative_rotations_for_Interstitial': list(ROTS[tier]) + ['rot > 0 only on cells <= {} sites'.format(ROTCAP[tier])],
+            'skipped_by_site_cap': sorted(set('{}:{}:cut{}:{}'.format(*s[:4]) for s in skipped))}
 
 
 def cases(tier):
     conf, _ = _configs(tier)
-    return [{'key': '{}:{}:cut{}:{}'.format(k, c, i, m), 'kind': k, 'crystal': c, 'icut': i, 'matrix': m,
-             'cost': _nsites(c, m) ** 2 * (3 if k == 'V' else 1)} for k, c, i, m in conf]
+    return [{'key': '{}:{}:cut{}:{}{}'.format(k, c, i, m, ':rep{}'.format(r) if k == 'I' else ''), 'kind': k, 'crystal': c,
+             'icut': i, 'matrix': m, 'rot': r, 'cost': _nsites(c, m) ** 2 * (3 if k == 'V' else 1)} for k, c, i, m, r in conf]
 
 
 # --------------------------------------------------------------------------- helpers
-def make_calc(kind, cname, icut):
+def canonical_network(sitelist, jumpnetwork, rot=0):
+    """
+    Hash-seed independent presentation of a site list / jump network: members of every class sorted, classes
+    sorted by their first member, then every class list rotated by `rot` (so that the representative --
+    element 0 of each list, which makesupercells builds -- runs through the class as rot varies).
+    """
+    jkey = lambda j: (j[0][0], j[0][1]) + tuple(np.round(j[1], 6).tolist())
+    sl = sorted((sorted(l) for l in sitelist), key=lambda l: l[0])
+    jn = sorted((sorted(l, key=jkey) for l in jumpnetwork), key=lambda l: jkey(l[0]))
+    r = lambda l: l[rot % len(l):] + l[:rot % len(l)]
+    return [r(l) for l in sl], [r(l) for l in jn]
+
+
+def make_calc(kind, cname, icut, rot=0):
     crys, chem, sitelist, jn = catalog.network(cname, icut)
-    if kind == 'I': return OnsagerCalc.Interstitial(crys, chem, sitelist, jn)
+    if kind == 'I':
+        sitelist, jn = canonical_network(sitelist, jn, rot)
+        return OnsagerCalc.Interstitial(crys, chem, sitelist, jn)
     return OnsagerCalc.VacancyMediated(crys, chem, sitelist, jn, 1)
 
 
@@ -118,7 +140,7 @@ def evaluate(case):
     def V(oracle, key, detail):
         viols.append({'oracle': oracle, 'key': '{}:{}'.format(pre, key), 'detail': detail})
 
-    calc = make_calc(kind, cname, icut)
+    calc = make_calc(kind, cname, icut, case.get('rot', 0))
     crys, chem = calc.crys, calc.chem
     M = np.array(MATS[mname], dtype=int)
     with warnings.catch_warnings(record=True) as wlist:
